@@ -337,3 +337,24 @@ Section C02.
   Lemma blank_rejected k zero x c : lower_comprehension k zero [{| ph_key := None; ph_val := None; ph_x := x; ph_cond := c |}] = None.
   Proof. reflexivity. Qed.
 End C02.
+
+(* named instances, stated outside the section *)
+Lemma comprehension_list_correct : forall err_text self en elt zero ps E tr vs tr',
+  Forall wf_phrase ps -> lower_comprehension (CList elt) zero ps = Some E ->
+  spec_comprehension (CList elt) zero ps en tr = Some (vs, tr') -> ev err_text self E en tr = (RVal vs, en, tr').
+Proof. intros et self en elt. exact (comprehension_correct et self en (CList elt)). Qed.
+Lemma comprehension_map_correct : forall err_text self en ke ve zero ps E tr vs tr',
+  Forall wf_phrase ps -> lower_comprehension (CMap ke ve) zero ps = Some E ->
+  spec_comprehension (CMap ke ve) zero ps en tr = Some (vs, tr') -> ev err_text self E en tr = (RVal vs, en, tr').
+Proof. intros et self en ke ve. exact (comprehension_correct et self en (CMap ke ve)). Qed.
+Lemma comprehension_select_correct : forall err_text self en elt two zero ps E tr vs tr',
+  Forall wf_phrase ps -> lower_comprehension (CSelect elt two) zero ps = Some E ->
+  spec_comprehension (CSelect elt two) zero ps en tr = Some (vs, tr') -> ev err_text self E en tr = (RVal vs, en, tr').
+Proof. intros et self en elt two. exact (comprehension_correct et self en (CSelect elt two)). Qed.
+Lemma comprehension_exists_correct : forall err_text self en zero ps E tr vs tr',
+  Forall wf_phrase ps -> lower_comprehension CExists zero ps = Some E ->
+  spec_comprehension CExists zero ps en tr = Some (vs, tr') -> ev err_text self E en tr = (RVal vs, en, tr').
+Proof. intros et self en. exact (comprehension_correct et self en CExists). Qed.
+Lemma last_phrase_outermost : forall ps p s F,
+  nest (ps ++ [p]) s = wrap p (nest ps s) /\ spec_nest (ps ++ [p]) F = spec_wrap p (spec_nest ps F).
+Proof. intros. split; [apply nest_snoc|apply spec_nest_snoc]. Qed.
